@@ -9,6 +9,7 @@ import (
 	"io"
 	"os"
 	"sort"
+	"sync"
 
 	"github.com/foxglove/mcap/go/mcap"
 	"github.com/klauspost/compress/zstd"
@@ -174,6 +175,10 @@ func CallsReuse(w *wl.Workload, mo MapOrder, attSrc func(a *wl.Attachment) io.Re
 		switch {
 		case o.S != nil:
 			calls = append(calls, Call{"WriteSchema", i, func(mw *mcap.Writer) error {
+				if i%5 == 2 {
+					// registered for the summary first, written right after: AddSchema is documented for exactly that
+					mw.AddSchema(&mcap.Schema{ID: o.S.ID, Name: o.S.Name, Encoding: o.S.Encoding, Data: append([]byte{}, o.S.Data...)})
+				}
 				if reuse {
 					rSchema.ID, rSchema.Name, rSchema.Encoding = o.S.ID, o.S.Name, o.S.Encoding
 					rSchema.Data = append(rSchema.Data[:0], o.S.Data...)
@@ -186,6 +191,9 @@ func CallsReuse(w *wl.Workload, mo MapOrder, attSrc func(a *wl.Attachment) io.Re
 			}})
 		case o.C != nil:
 			calls = append(calls, Call{"WriteChannel", i, func(mw *mcap.Writer) error {
+				if i%5 == 3 {
+					mw.AddChannel(&mcap.Channel{ID: o.C.ID, SchemaID: o.C.SchemaID, Topic: o.C.Topic, MessageEncoding: o.C.MessageEncoding, Metadata: kvMap(mo(o.C.Metadata))})
+				}
 				if reuse {
 					rChannel.ID, rChannel.SchemaID, rChannel.Topic, rChannel.MessageEncoding = o.C.ID, o.C.SchemaID, o.C.Topic, o.C.MessageEncoding
 					refillMap(rChannel.Metadata, mo(o.C.Metadata))
@@ -238,7 +246,12 @@ func CallsReuse(w *wl.Workload, mo MapOrder, attSrc func(a *wl.Attachment) io.Re
 
 // Write runs the whole workload against a fresh writer on sink. Any error is returned with the call name.
 func Write(sink io.Writer, w *wl.Workload, k wl.Config) (*mcap.Writer, error) {
-	mw, err := mcap.NewWriter(sink, Options(k))
+	wopts := Options(k)
+	mw, err := mcap.NewWriter(sink, wopts)
+	if k.CallerReuses {
+		// the caller's options struct is the caller's again once NewWriter has returned
+		*wopts = mcap.WriterOptions{ChunkSize: 1, Chunked: !k.Chunked, IncludeCRC: !k.IncludeCRC, SkipMagic: !k.SkipMagic, SkipStatistics: true, SkipChunkIndex: true, SkipRepeatedChannelInfos: true}
+	}
 	if err != nil {
 		return nil, fmt.Errorf("NewWriter: %w", err)
 	}
@@ -401,6 +414,41 @@ type LexParams struct {
 	// 1 one fixed 24-byte buffer every time; 2 the documented idiom: keep the largest slice returned
 	// so far and hand it back. Tokens are parsed (deep-copied) before the next call in every mode.
 	BufMode int
+	// Baton, when set, makes this lexer take turns with another one (LexPair): every Next call waits for its turn.
+	Baton   *Baton
+	BatonID int
+}
+
+// Baton enforces strict alternation between two goroutines (ids 0 and 1) until one of them is done.
+type Baton struct {
+	mu   sync.Mutex
+	cond *sync.Cond
+	turn int
+	done [2]bool
+}
+
+func NewBaton() *Baton { b := &Baton{}; b.cond = sync.NewCond(&b.mu); return b }
+func (b *Baton) Acquire(id int) {
+	b.mu.Lock()
+	for b.turn != id && !b.done[1-id] {
+		b.cond.Wait()
+	}
+	b.mu.Unlock()
+}
+func (b *Baton) Release(id int) { b.mu.Lock(); b.turn = 1 - id; b.cond.Broadcast(); b.mu.Unlock() }
+func (b *Baton) Done(id int)    { b.mu.Lock(); b.done[id] = true; b.turn = 1 - id; b.cond.Broadcast(); b.mu.Unlock() }
+
+// LexPair drains two lexers side by side, one Next call each in turn (as a tool that merges or compares two
+// files does), and returns what each of them saw.
+func LexPair(a, b []byte, pa, pb LexParams) (ra, rb LexResult) {
+	bt := NewBaton()
+	pa.Baton, pa.BatonID, pb.Baton, pb.BatonID = bt, 0, bt, 1
+	var wg sync.WaitGroup
+	wg.Add(2)
+	go func() { defer wg.Done(); ra = LexAll(bytes.NewReader(a), pa, false) }()
+	go func() { defer wg.Done(); rb = LexAll(bytes.NewReader(b), pb, false) }()
+	wg.Wait()
+	return ra, rb
 }
 
 // LexResult is the outcome of draining a lexer.
@@ -416,8 +464,13 @@ type LexResult struct {
 func (r *LexResult) Clean() bool { return r.Panic == "" && r.OpenErr == nil && errors.Is(r.Err, io.EOF) }
 
 // LexAll drains a lexer over r, parsing every token into an Event (deep copies).
+var lexAllCalls int
+
 // keepRaw additionally keeps the raw token slices exactly as returned, for aliasing checks.
 func LexAll(r io.Reader, p LexParams, keepRaw bool) (res LexResult) {
+	if p.Baton != nil {
+		defer p.Baton.Done(p.BatonID)
+	}
 	defer func() {
 		if x := recover(); x != nil {
 			res.Panic = fmt.Sprint(x)
@@ -460,11 +513,17 @@ func LexAll(r io.Reader, p LexParams, keepRaw bool) (res LexResult) {
 	r, done := varySource(r, false)
 	defer done()
 	lx, err := mcap.NewLexer(r, opts)
+	// the options struct is the caller's: it may be refilled for the next lexer as soon as NewLexer has returned
+	*opts = mcap.LexerOptions{MaxRecordSize: 1, MaxDecompressedChunkSize: 1, EmitChunks: !p.EmitChunks}
 	if err != nil {
 		res.OpenErr = err
 		return res
 	}
 	defer lx.Close()
+	lexAllCalls++
+	if lexAllCalls%2 == 0 {
+		defer lx.Close() // Close is called twice by the common 'defer Close()' + explicit Close() pair
+	}
 	var smallBuf [24]byte
 	var growBuf []byte
 	for {
@@ -481,7 +540,13 @@ func LexAll(r io.Reader, p LexParams, keepRaw bool) (res LexResult) {
 				callerBuf = growBuf
 			}
 		}
+		if p.Baton != nil {
+			p.Baton.Acquire(p.BatonID)
+		}
 		tt, rec, err := lx.Next(callerBuf)
+		if p.Baton != nil {
+			p.Baton.Release(p.BatonID)
+		}
 		if p.BufMode == 2 && cap(rec) > cap(growBuf) {
 			growBuf = rec[:0]
 		}
@@ -579,6 +644,67 @@ type IterResult struct {
 
 func (r *IterResult) Clean() bool { return r.Panic == "" && r.OpenErr == nil && errors.Is(r.Err, io.EOF) }
 
+// ReadMessagesTwice opens ONE reader and drains Messages(opts...) on it twice in a row.
+func ReadMessagesTwice(r io.Reader, opts ...mcap.ReadOpt) (first, second IterResult) {
+	defer func() {
+		if x := recover(); x != nil {
+			second.Panic = fmt.Sprint(x)
+		}
+	}()
+	rd, err := mcap.NewReader(r)
+	if err != nil {
+		first.OpenErr, second.OpenErr = err, err
+		return
+	}
+	defer rd.Close()
+	drain := func(res *IterResult) {
+		it, err := rd.Messages(opts...)
+		if err != nil {
+			res.OpenErr = err
+			return
+		}
+		for {
+			s, c, m, err := it.NextInto(nil)
+			if err != nil {
+				res.Err = err
+				return
+			}
+			res.Items = append(res.Items, Triple{FromSchema(s), FromChannel(c), FromMessage(m)})
+			if len(res.Items) > 1<<20 {
+				res.Err = fmt.Errorf("harness: more than 2^20 items")
+				return
+			}
+		}
+	}
+	drain(&first)
+	drain(&second)
+	return
+}
+
+// pendingTopicSlices holds the slices handed to WithTopics through Topics(): the reading helpers overwrite them
+// as soon as Messages() has returned, as a caller does that refills one scratch slice per read.
+var pendingTopicSlices [][]string
+
+// Topics is mcap.WithTopics for a caller that reuses its slice afterwards.
+func Topics(topics []string) mcap.ReadOpt {
+	if topics == nil {
+		return mcap.WithTopics(nil)
+	}
+	scratch := append(make([]string, 0, len(topics)+1), topics...)
+	pendingTopicSlices = append(pendingTopicSlices, scratch)
+	return mcap.WithTopics(scratch)
+}
+
+// ScribbleTopics is called by whoever called Messages(), right after it returned.
+func ScribbleTopics() {
+	for _, sl := range pendingTopicSlices {
+		for i := range sl {
+			sl[i] = "/overwritten-by-caller"
+		}
+	}
+	pendingTopicSlices = pendingTopicSlices[:0]
+}
+
 // ReadMessages opens a reader on rs and drains Messages(opts...).
 func ReadMessages(r io.Reader, withMetaCB bool, keepOrig bool, maxItems int, opts ...mcap.ReadOpt) (res IterResult) {
 	return ReadMessagesMode(r, 0, withMetaCB, keepOrig, maxItems, opts...)
@@ -609,6 +735,7 @@ func ReadMessagesMode(r io.Reader, mode int, withMetaCB bool, keepOrig bool, max
 		}))
 	}
 	it, err := rd.Messages(opts...)
+	ScribbleTopics()
 	if err != nil {
 		res.OpenErr = err
 		return res
